@@ -14,7 +14,7 @@ import json
 import os
 import vlib
 
-PROPS = ['Rangers.Props.C06', 'Rangers.Props.C06Sites']
+PROPS = ['Rangers.Props.C06', 'Rangers.Props.C06Sites', 'Rangers.Props.C06Real']
 DRIVERS = ['C06']
 META = dict(
     level='proof',
